@@ -212,6 +212,8 @@ public:
 
   OrderedSimplex(const std::vector<double>& probas, unsigned short method = 0, bool allowNull = false, const std::string& name = "Simplex.");
 
+  OrderedSimplex* clone() const { return new OrderedSimplex(*this); }
+
   void fireParameterChanged(const ParameterList& parameters);
 
   void setFrequencies(const std::vector<double>&);
